@@ -97,3 +97,82 @@ Theorem C02_flow_noncover : forall c u fuel h e l1 l2,
   run (W c u) fuel k_flow_compute_l2_key [VO (OHash h); VI l1; VI l2; VO (OEnv e)] = Raise ValueError.
 Proof. exact flow_compute_l2_key_noncover. Qed.
 Print Assumptions C02_flow_noncover.
+
+(* ---- the top of the chain, from the ROOT KEY BYTES (Spec/GkdiRootSpec.v, written from MS-GKDI 3.1.4.1.2 and SP800-108:
+   context = RootKeyId || L0 || L1 || L2 as signed 32-bit little-endian, label "KDS service\0" in UTF-16-LE, 64 octets;
+   L0 seed from the root key with (L0,-1,-1); L1(31) from the L0 seed with (L0,31,-1) || target SD; then down the L1 and
+   L2 chains).  res_of maps a specification value to Ok and "an index has no signed 32-bit encoding" to OverflowError. ---- *)
+From V Require Import Prelude.PyInt gen.Consts Spec.GkdiRootSpec Proofs.C02Root Proofs.C02RootFlow.
+
+(* the KDF context, for ALL arguments: the specified bytes, or OverflowError exactly when an index is out of range *)
+Theorem C02_kdf_context_layout : forall rkid l0 l1 l2,
+  compute_kdf_context rkid l0 l1 l2 = res_of (kdf_context rkid l0 l1 l2).
+Proof. exact kdf_context_layout. Qed.
+Print Assumptions C02_kdf_context_layout.
+Theorem C02_kdf_context_in_range : forall rkid l0 l1 l2, i32 l0 -> i32 l1 -> i32 l2 ->
+  exists a b c, i32le l0 = Some a /\ i32le l1 = Some b /\ i32le l2 = Some c /\
+    compute_kdf_context rkid l0 l1 l2 = Ok (rkid ++ a ++ b ++ c) /\ len (rkid ++ a ++ b ++ c) = len rkid + 12.
+Proof. exact kdf_context_in_range. Qed.
+Print Assumptions C02_kdf_context_in_range.
+Theorem C02_kdf_context_out_of_range : forall rkid l0 l1 l2, ~ (i32 l0 /\ i32 l1 /\ i32 l2) ->
+  compute_kdf_context rkid l0 l1 l2 = Raise OverflowError.
+Proof. exact kdf_context_out_of_range. Qed.
+Print Assumptions C02_kdf_context_out_of_range.
+(* the model's signed encoder is two's complement; the label constant regenerated from the library is the specified one *)
+Theorem C02_i32le : forall z, to_bytes_le_signed 4 z = res_of (i32le z).
+Proof. exact i32le_spec. Qed.
+Print Assumptions C02_i32le.
+Theorem C02_label : kds_label = c_KDS_SERVICE_LABEL.
+Proof. exact label_spec. Qed.
+Print Assumptions C02_label.
+Example C02_i32le_examples : i32le (-1) = Some [255; 255; 255; 255] /\ i32le 31 = Some [31; 0; 0; 0] /\
+  i32le 361 = Some [105; 1; 0; 0] /\ i32le (-2147483648) = Some [0; 0; 0; 128] /\ i32le 2147483648 = None.
+Proof. exact i32le_examples. Qed.
+
+(* compute_l1_key is the specification's L1 key at index 31 derived from the root key, for ALL arguments *)
+Theorem C02_root : forall (c : Crypto) (h : hash) (root_key target_sd rkid : bytes) (l0 : Z),
+  compute_l1_key c h target_sd rkid l0 root_key = res_of (L1_31 (kdf c) h root_key target_sd rkid l0).
+Proof. exact root_l1. Qed.
+Print Assumptions C02_root.
+
+(* the abstract chain of the theorems above, started at top := compute_l1_key(..), is the byte-level hierarchy *)
+Theorem C02_root_K2 : forall (c : Crypto) (h : hash) (root_key target_sd rkid : bytes) (l0 i j : Z),
+  K2 (kdfK c h rkid l0) (compute_l1_key c h target_sd rkid l0 root_key) i j = res_of (L2 (kdf c) h root_key target_sd rkid l0 i j).
+Proof. exact K2_spec. Qed.
+Print Assumptions C02_root_K2.
+
+(* composition with C02_model_chain: from ANY conforming envelope covering the request, the key at (l1, l2) is the
+   specification's iterated KDF from the root key bytes *)
+Theorem C02_root_chain : forall (c : Crypto) (h : hash) (root_key target_sd : bytes) (e : envelope) (l1 l2 : Z),
+  conforming (kdfK c h (gke_rkid e) (gke_l0 e)) (compute_l1_key c h target_sd (gke_rkid e) (gke_l0 e) root_key) (env_of e) ->
+  0 <= l1 <= 31 -> 0 <= l2 <= 31 -> covers (env_of e) l1 l2 ->
+  compute_l2_key c h l1 l2 e = res_of (L2 (kdf c) h root_key target_sd (gke_rkid e) (gke_l0 e) l1 l2).
+Proof. exact root_chain. Qed.
+Print Assumptions C02_root_chain.
+(* in particular from the (31, 31) envelope whose L1 key the library derived from the root key *)
+Theorem C02_root_envelope_chain : forall (c : Crypto) (h : hash) (root_key target_sd : bytes) (e : envelope) (l1 l2 : Z),
+  gke_l1 e = 31 -> gke_l2 e = 31 ->
+  compute_l1_key c h target_sd (gke_rkid e) (gke_l0 e) root_key = Ok (gke_l1_key e) ->
+  0 <= l1 <= 31 -> 0 <= l2 <= 31 ->
+  compute_l2_key c h l1 l2 e = res_of (L2 (kdf c) h root_key target_sd (gke_rkid e) (gke_l0 e) l1 l2).
+Proof. exact root_envelope_chain. Qed.
+Print Assumptions C02_root_envelope_chain.
+(* non-vacuity: with L0 in the signed 32-bit range every key of the hierarchy exists (nothing is OverflowError) *)
+Theorem C02_root_defined : forall (c : Crypto) (h : hash) (root_key target_sd rkid : bytes) (l0 i j : Z),
+  i32 l0 -> 0 <= i <= 31 -> 0 <= j <= 31 -> exists k, L2 (kdf c) h root_key target_sd rkid l0 i j = Some k.
+Proof. exact L2_defined. Qed.
+Print Assumptions C02_root_defined.
+
+(* the same for what the SOURCE computes (interpreter runs of the regenerated bodies) *)
+Theorem C02_flow_root : forall c u fuel sd g l0 rk h,
+  run (W c u) fuel k_flow_compute_l1_key [VB sd; VO (OUuid g); VI l0; VB rk; VO (OHash h)]
+  = (let* b := res_of (L1_31 (kdf c) h rk sd g l0) in Ok (VB b)).
+Proof. exact flow_root_l1. Qed.
+Print Assumptions C02_flow_root.
+Theorem C02_flow_root_chain : forall c u fuel h root_key target_sd e l1 l2,
+  conforming (kdfK c h (gke_rkid e) (gke_l0 e)) (compute_l1_key c h target_sd (gke_rkid e) (gke_l0 e) root_key) (env_of e) ->
+  0 <= l1 <= 31 -> 0 <= l2 <= 31 -> covers (env_of e) l1 l2 -> (L2_FUEL < fuel)%nat ->
+  run (W c u) fuel k_flow_compute_l2_key [VO (OHash h); VI l1; VI l2; VO (OEnv e)]
+  = (let* b := res_of (L2 (kdf c) h root_key target_sd (gke_rkid e) (gke_l0 e) l1 l2) in Ok (VB b)).
+Proof. exact flow_root_chain. Qed.
+Print Assumptions C02_flow_root_chain.
